@@ -481,6 +481,7 @@ class InstrOps:
         """concrete upper bound on len(s)"""
         if isinstance(s.len, int):
             return s.len
+        tb = term_bounds(s.len)
         m = 0
         for g, r in s.arr.alts:
             if r is None:
@@ -490,6 +491,8 @@ class InstrOps:
             if isinstance(s.off, int):
                 n -= s.off
             m = max(m, n)
+        if tb is not None:
+            m = min(m, max(tb[1], 0))
         return m
 
     def slice_get(self, s, i, guard):
@@ -643,6 +646,23 @@ class InstrOps:
             raise Unsupported("make of %d elements" % n)
         arr = self.alloc("array", self._array_tid(elem, n), ArrayV([self.zero(elem) for _ in range(n)]), site="%s:%s" % (fr.fn["name"], ins.get("reg")))
         return SliceV(Ptr.to(arr.id), 0, ln, cp)
+
+    def i_SliceToArrayPointer(self, fr, env, ins, guard, state):
+        """(*[N]T)(s): panics when len(s) < N. The result points to a fresh array holding the first N elements (a copy: exact
+        for the conversion form [N]T(s), which dereferences at once; writes through the pointer would not alias s)."""
+        x = self.val(env, ins["x"])
+        pt, pd = self.prog.under(ins["type"])
+        at, ad = self.prog.under(pd["elem"])
+        n, elem = ad["len"], ad["elem"]
+        ok = int_cmp(">=", x.len, n, 64, True)
+        if ok is not True:
+            self.path_kills += 1
+            self.oblige("panic", "cannot convert slice to array (pointer): slice too short", b_and(guard, b_not(ok)), False, ins.get("pos"), fr.fn["name"])
+            guard = b_and(guard, ok)
+            state["guard"] = guard
+        self.note("assumption", "slice-to-array conversions are materialised as copies")
+        arr = self.alloc("array", pd["elem"], ArrayV([self.slice_get(x, i, guard) for i in range(n)]), site="%s:%s" % (fr.fn["name"], ins.get("reg")))
+        return Ptr.to(arr.id)
 
     def i_Slice(self, fr, env, ins, guard, state):
         x = self.val(env, ins["x"])
